@@ -1,0 +1,188 @@
+//go:build verif
+
+package dastard
+
+// Named synchronisation points (build tag verif only).  verifPoint(site) is called at fixed places of
+// Start / CoreLoop / Stop / runLaterIfActive / the simulated producers.  Two modes, driven by the
+// out-of-tree harness through the exported Verif... functions below:
+//
+//   log  : every arrival appends (site, goroutine id) to a trace (exact order: one internal lock);
+//   gate : at the sites named by VerifGate the arriving goroutine additionally parks (after its trace
+//          entry was appended) until the harness releases it, so the harness can force an interleaving.
+//
+// Sites inside a critical section of the source-state lock are for logging only and must not be gated.
+
+import (
+	"runtime"
+	"sync"
+	"time"
+)
+
+// VerifEvent is one entry of the trace.
+type VerifEvent struct {
+	Site string
+	Gid  uint64
+}
+
+// VerifWaiter is one goroutine parked at a gated site.
+type VerifWaiter struct {
+	ID   int
+	Site string
+	Gid  uint64
+}
+
+type verifParked struct {
+	VerifWaiter
+	release chan struct{}
+}
+
+var verifPt struct {
+	sync.Mutex
+	on      bool
+	log     []VerifEvent
+	gates   map[string]bool
+	parked  []*verifParked
+	nextID  int
+	changed chan struct{} // closed and replaced whenever the trace or the parked set changes
+}
+
+// VerifGoID is the id of the calling goroutine (parsed from the stack header "goroutine N [...").
+func VerifGoID() uint64 {
+	var buf [64]byte
+	n := runtime.Stack(buf[:], false)
+	var id uint64
+	for _, c := range buf[len("goroutine "):n] {
+		if c < '0' || c > '9' {
+			break
+		}
+		id = id*10 + uint64(c-'0')
+	}
+	return id
+}
+
+func verifBump() {
+	if verifPt.changed != nil {
+		close(verifPt.changed)
+	}
+	verifPt.changed = make(chan struct{})
+}
+
+func verifPoint(site string) {
+	verifPt.Lock()
+	if !verifPt.on {
+		verifPt.Unlock()
+		return
+	}
+	gid := VerifGoID()
+	verifPt.log = append(verifPt.log, VerifEvent{site, gid}) // the trace records arrivals
+	verifBump()
+	if !verifPt.gates[site] {
+		verifPt.Unlock()
+		return
+	}
+	p := &verifParked{VerifWaiter{verifPt.nextID, site, gid}, make(chan struct{})}
+	verifPt.nextID++
+	verifPt.parked = append(verifPt.parked, p)
+	verifPt.Unlock()
+	<-p.release
+}
+
+// VerifPointsOn clears the trace and the gate set and switches the points on (log mode).
+func VerifPointsOn() {
+	verifPt.Lock()
+	defer verifPt.Unlock()
+	verifPt.on = true
+	verifPt.log = nil
+	verifPt.gates = map[string]bool{}
+	verifBump()
+}
+
+// VerifPointsOff releases every parked goroutine and switches the points off.
+func VerifPointsOff() {
+	verifPt.Lock()
+	defer verifPt.Unlock()
+	verifPt.on = false
+	verifPt.gates = map[string]bool{}
+	for _, p := range verifPt.parked {
+		close(p.release)
+	}
+	verifPt.parked = nil
+	verifBump()
+}
+
+// VerifGate replaces the set of gated sites.  Goroutines already parked stay parked.
+func VerifGate(sites ...string) {
+	verifPt.Lock()
+	defer verifPt.Unlock()
+	verifPt.gates = map[string]bool{}
+	for _, s := range sites {
+		verifPt.gates[s] = true
+	}
+}
+
+// VerifParked lists the goroutines currently parked at gates, oldest first.
+func VerifParked() []VerifWaiter {
+	verifPt.Lock()
+	defer verifPt.Unlock()
+	out := make([]VerifWaiter, len(verifPt.parked))
+	for i, p := range verifPt.parked {
+		out[i] = p.VerifWaiter
+	}
+	return out
+}
+
+// VerifRelease lets the parked goroutine with the given id continue.
+func VerifRelease(id int) bool {
+	verifPt.Lock()
+	defer verifPt.Unlock()
+	for i, p := range verifPt.parked {
+		if p.ID == id {
+			verifPt.parked = append(verifPt.parked[:i:i], verifPt.parked[i+1:]...)
+			verifBump()
+			close(p.release)
+			return true
+		}
+	}
+	return false
+}
+
+// VerifTrace returns a copy of the trace from index `from` on.
+func VerifTrace(from int) []VerifEvent {
+	verifPt.Lock()
+	defer verifPt.Unlock()
+	if from > len(verifPt.log) {
+		from = len(verifPt.log)
+	}
+	return append([]VerifEvent(nil), verifPt.log[from:]...)
+}
+
+// VerifNote appends a harness-side entry (e.g. the return of a call) to the trace, in order.
+func VerifNote(site string) {
+	verifPt.Lock()
+	defer verifPt.Unlock()
+	if verifPt.on {
+		verifPt.log = append(verifPt.log, VerifEvent{site, VerifGoID()})
+		verifBump()
+	}
+}
+
+// VerifSettle waits until neither the trace nor the parked set has changed for `quiet`, at most `max`.
+// It returns false when `max` elapsed first.
+func VerifSettle(quiet, max time.Duration) bool {
+	deadline := time.After(max)
+	for {
+		verifPt.Lock()
+		if verifPt.changed == nil {
+			verifPt.changed = make(chan struct{})
+		}
+		ch := verifPt.changed
+		verifPt.Unlock()
+		select {
+		case <-ch:
+		case <-time.After(quiet):
+			return true
+		case <-deadline:
+			return false
+		}
+	}
+}
